@@ -1,6 +1,7 @@
 import SJ.Properties.C14
 import SJ.Proofs.SourceLevelB
 import SJ.Proofs.SourceLevelC
+import SJ.Proofs.SourceLevelD
 set_option linter.unusedVariables false
 /-
 C14 — source level. The theorems of Properties/C14.lean composed with the source ties of DESIGN §6.3: each statement
@@ -158,5 +159,28 @@ theorem C14_source_history : ∀ (ops : List DOp) (pj : PJ) (v : LVal), Ok pj v 
     ∃ pj', srcDOps fuel pj v ops = some pj' ∧ Ok pj' (absDOps v ops) ∧ Tight (absDOps v ops) ∧ pj'.msg = pj.msg ∧
       pj'.tape.size = pj.tape.size ∧ pj'.strings = pj.strings ++ appendedAllD ops :=
   SJ.SourceLevelC.C14_source_history 
+
+open SJ.Generated SJ.GoSem SJ.GoIter SJ.Layout SJ.SourceLevelD SJ.EditHistory SJ.WalkLayout SJ.DeleteDoc SJ.GoObject SJ.GoMarshal SJ.MarshalExact SJ.RenderParse SJ.SourceLevelC in
+/-- **After any valid history of deletions and replacements, the source-side reader prints exactly the edited document**
+    (the source-level counterpart of `C14_history_readback`, whose reader `owalkValue` is a walker of the model; the
+    analogue of `C13_source_history_readback`).  `ops` is any finite sequence of `Array.DeleteElems`, `Object.DeleteElems`
+    and `Set*` calls, each valid in the document as it is when the call is made (`ValidSeqDA`).  Running the regenerated
+    syntax trees one after the other (`srcDOps`) returns without error at every step; and then running the regenerated
+    `Iter.MarshalJSONBuffer(dst)` on the tape and string buffer that run returned, from the iterator standing on the
+    document's first word (which has not moved), returns `dst ++ renderJ (erase (absDOps v ops))` — the canonical text of
+    the original document with the selected members removed and the addressed values replaced, no survivor skipped, no
+    deleted member resurrected, no gap misread — and `nil`; the tape is untouched by the reader.
+    Discharged: every premise of the marshal tie (`OnNode`, the view, `cur < 2^63`, `BufOK` of the final buffers) and of the
+    deletion ties (see `C14_source_history`).  Remaining: `FloatsOk` of the edited document (a `SetFloat(NaN)` has no JSON
+    text: `MarshalJSONBuffer` then returns an error, `C10_source_marshal_error`); `BufOK pj` at the start (Go `int` lengths);
+    `len(tape) < 2^56` (see `C14_source_history`); interpreter fuel. -/
+theorem C14_source_history_readback (ops : List DOp) (pj : PJ) (v : LVal) (hok : Ok pj v) (ht : Tight v)
+    (hv : ValidSeqDA pj.strings.size pj.tape.size v ops) (hfl : FloatsOk (absDOps v ops)) (hb : BufOK pj)
+    (hsz : pj.tape.size < 2^56) (fuel : Nat) (hf : 2 * pj.tape.size + 7 ≤ fuel) (dst : Bytes)
+    (F : Nat) (hF : 3 * pj.tape.size + 25 ≤ F) :
+    ∃ pj', srcDOps fuel pj v ops = some pj' ∧
+      ∃ st, runFun goFuns goIter_MarshalJSONBuffer F ⟨initEnv pj' (iterOn pj' v.pos) dst, pj'.tape⟩ =
+          .ret st [.bytes (dst ++ renderJ (erase (absDOps v ops))), .bool false] ∧ st.tape = pj'.tape :=
+  SJ.SourceLevelD.C14_source_history_readback ops pj v hok ht hv hfl hb hsz fuel hf dst F hF
 
 end SJ.Properties.C14
